@@ -145,7 +145,10 @@ where
 
   fn on_admit(&self, key: &K, cost: u64) -> AdmissionDecision<K> {
     let mut state = self.state.lock();
-    if !state.protected.contains(key) && !state.probationary.contains(key) {
+    // Re-admission of a tracked key (an overwrite) keeps its segment and
+    // position but must record the new cost: evict() reports recorded costs,
+    // and the cache frees capacity by what the policy says it released.
+    if !state.protected.update_cost(key, cost) && !state.probationary.update_cost(key, cost) {
       state.probationary.push_front(key.clone(), cost);
     }
     AdmissionDecision::Admit
